@@ -1,0 +1,13 @@
+//go:build !verif
+
+// Package verifhook holds the crash-point hooks of the plugin installation code. Without the `verif` build tag
+// (the default) every function is a no-op.
+package verifhook
+
+import "io"
+
+func CrashPoint(name string) {}
+
+func Tear(name string, data []byte) []byte { return data }
+
+func TearReader(name string, r io.Reader) io.Reader { return r }
